@@ -478,13 +478,12 @@ def check_built(obj, cfg, log, problems, where="x"):
         init = cfg.get("init_args", {}) or {}
         kw = cfg.get("dict_kwargs", {}) or {}
         if name in FACTORIES:
-            recs = [i for i, r in enumerate(log) if r[1] == name and r[4] is None]
-            if len(recs) != 1:
-                problems.append((where, "once", f"factory {name} called {len(recs)} times"))
-                return -1
             want = {**init, **kw}
-            if log[recs[0]][3] != want:
-                problems.append((where, "args", f"factory {name} called with {log[recs[0]][3]}, configured {want}"))
+            calls = [i for i, r in enumerate(log) if r[1] == name and r[4] is None]
+            recs = [i for i in calls if log[i][3] == want]
+            if not recs:  # (the number of factory calls is compared with the number of factory nodes by the caller)
+                problems.append((where, "args", f"factory {name} called with {[log[i][3] for i in calls]}, configured {want}"))
+                return -1
             ret = CLASSES[MODEL[name]["returns"]]
             if not isinstance(obj, ret):
                 problems.append((where, "type", f"factory result is {type(obj).__name__}"))
@@ -559,6 +558,10 @@ def count_specs(cfg):
         c2, f2 = count_specs(v)
         c, f = c + c2, f + f2
     return c, f
+
+
+def factory_calls(log):
+    return sum(1 for r in log if r[4] is None)
 
 
 def constructions(log):
